@@ -78,7 +78,7 @@ impl Property for C13 {
         "C13"
     }
     fn rule(&self) -> String {
-        "cases: 1..8 complete RLP items (independently signed valid records, or re-signed structural mutants that are complete items) followed by a suffix of 0..1000 bytes (empty, one byte, zeros, random, another record, a truncated record, a run of 0xc0); either concatenated (stream) or wrapped in an RLP list (Vec<Enr<K>>::decode); all four key types. Oracle (metamorphic): decoding item||suffix has the outcome of decoding the item alone (same record fields, buffer advanced by exactly len(item)); sequential decoding of a stream and Vec::decode of a list return the records obtained individually (Vec::decode fails iff one item fails). Non-trivial: non-empty suffix with len(item||suffix) > 300 >= len(item), or >= 2 records. Distinct by hash of the case.".into()
+        "cases: 1..8 complete RLP items (independently signed valid records, or re-signed structural mutants that are complete items) followed by a suffix of 0..1000 bytes (empty, one byte, zeros, random, another record, a truncated record, a run of 0xc0); either concatenated (stream) or wrapped in an RLP list (Vec<Enr<K>>::decode); all four key types. Oracle (metamorphic): decoding item||suffix has the outcome of decoding the item alone (same record fields and buffer advanced by exactly len(item) on success, the same error value on failure); sequential decoding of a stream and Vec::decode of a list return the records obtained individually (Vec::decode fails iff one item fails). Non-trivial: non-empty suffix with len(item||suffix) > 300 >= len(item), or >= 2 records. Distinct by hash of the case.".into()
     }
     fn assumptions(&self) -> Vec<String> {
         vec!["'complete RLP item' is judged by the reference header parser".into()]
@@ -193,7 +193,18 @@ impl Property for C13 {
                         }
                         (_, Some(LibOut::Panic(p))) => return Err(format!("[{kt:?}] decode panicked: {p}")),
                         (LibOut::Panic(p), _) => return Err(format!("[{kt:?}] decode panicked: {p}")),
-                        (_, _) => break, // both failed: the stream ends here
+                        (LibOut::Err(ea), Some(LibOut::Err(eg))) => {
+                            // "the same outcome": the same error value, whatever follows the item
+                            if ea != eg {
+                                return Err(format!(
+                                    "[{kt:?}] item {i} ({} bytes) fails with {ea} alone but with {eg} when followed by {} more bytes",
+                                    s.items[i].len(),
+                                    buf.len() - s.items[..=i].iter().map(|x| x.len()).sum::<usize>()
+                                ));
+                            }
+                            break; // both failed identically: the stream ends here
+                        }
+                        (_, _) => break,
                     }
                 }
             }
